@@ -25,7 +25,14 @@ def run_one(prop: str, tier: str) -> int:
         rep = Report(prop, tier)
         rep.analysed = {"repo": str(prog.root), "modules": len(prog.modules), "functions": len(prog.funcs),
                         "classes": len(prog.classes), "source_digest": prog.digest()}
-        mod.check(prog, rep)
+        try:
+            mod.check(prog, rep)
+        except AnalysisError as exc:
+            if not any(not ob.ok for r in rep.rules for ob in r.obs):
+                raise
+            rep.deferred.append(str(exc))  # violations found before the analysis broke off are still reported
+            if rep.rules and not rep.rules[-1].obs:
+                rep.rules.pop()
         renamed = {f"{rel}::{q}": m for rel, mo in prog.modules.items() for q, m in getattr(mo, "alpha", {}).items()}
         if renamed:
             rep.analysed["alpha_normalised"] = {"note": "local variables renamed towards the reference naming before analysis "
